@@ -374,7 +374,14 @@ func (set *Set) add(hosts ...*Host) {
 		// a stored host with the same address is replaced: drop its healthy
 		// entry, which lives in the other tier when the type has changed.
 		if old, ok := set.all[host.Addr]; ok && old != host {
+			if IsEqual(old, host) {
+				// the same host once more (e.g. a repeated discovery event): keep the
+				// stored object, it is the one established connections are watching.
+				continue
+			}
 			set.dropHealthy(old)
+			// the stored object is replaced for good: what watches it must be told.
+			old.markRemoved()
 		}
 		set.all[host.Addr] = host
 		// a host that is currently marked unhealthy becomes usable when the
